@@ -903,7 +903,17 @@ def select_e2e(cases, tier):
     # a real system lists every device once: lists that repeat an entry kind (= the same sysfs path) stay with the extractor-level check
     multi = [c for c in cases if len(c["entries"]) >= 2 and len(set(c["entries"])) == len(c["entries"])]
     step = max(1, len(multi) // want)
-    return multi[::step][:want]
+    sel = multi[::step][:want]
+    # every entry kind is seen end to end at least once without any exclude pattern (first and second position)
+    have = {id(c) for c in sel}
+    kinds = sorted({k for c in multi for k in c["entries"]})
+    for k in kinds:
+        for pos in (0, 1):
+            c = next((c for c in multi if not c["excludes"] and len(c["entries"]) > pos and c["entries"][pos] == k), None)
+            if c is not None and id(c) not in have:
+                sel.append(c)
+                have.add(id(c))
+    return sel
 
 
 def c16_e2e(res, wd, cases, replay_file=None):
